@@ -1,11 +1,73 @@
 """Per-property claims for MANIFEST.json (kept next to the checks so they stay in step)."""
 
-TB = ("Trusted: Lean 4.33 kernel; axioms propext/Classical.choice/Quot.sound only (audited per run); the correspondence "
-      "harness (generators, canonicalisation, worker) as the sampled link between model and /repo; Lean compiler for the native driver. ")
+TB = ("Trusted: Lean 4.33 kernel; axioms propext/Classical.choice/Quot.sound only (audited per theorem on every run); the correspondence "
+      "harness (generators, canonicalisation, worker) as the sampled link between model and /repo; the Lean compiler for the native driver. ")
 
 
 def fill(check):
-    check("C02", "Lean 4 proof (CKY recurrence = stratified derivation sum WN; table WNtab = WN; Earley priority order) + differential correspondence of all parsers against the proved WN oracle",
+    check("C01", "Lean 4 proof of a verified decision procedure for viable prefixes (Horn-clause least fixpoint) + differential correspondence of BoolCFGLM.p_next (both back ends) against it",
+          "nextSet_spec/viable_spec/addEOS_derives: for every grammar and context the oracle returns exactly the tokens whose extension can be completed; the real masks (earley and cky back ends, "
+          "several hash seeds) are compared with it on seeded grammars of all shape classes; thorough adds an exhaustive family of tiny grammars. Any difference is a violation with the input as replay.",
+          TB + "Modelled, not verified: the Earley/CKY mask computation itself (decided per input against the verified oracle).", "DESIGN.md 7 C01")
+    check("C02", "Lean 4 proof (CKY recurrence = stratified derivation sum WN; memo table = WN; strict Earley agenda priority on translator-generated expressions) + differential correspondence of all parsers against the proved WN oracle",
           "Theorems over every commutative semiring, grammar and string for the CKY leg and the specification table; the Earley legs are decided by the proved strict agenda-priority order "
-          "(translator-tied to the source expressions) plus sampled agreement of the real parsers with the proved oracle under several hash seeds, rule permutations, renamings and randomly broken agenda ties.",
-          TB + "Modelled, not verified: completeness of the Earley item system; floating point; CPython dict/set semantics.", "DESIGN.md section 7 C02")
+          "(tied to the source expressions by the translator) plus sampled agreement of the real parsers with the proved oracle under several hash seeds, rule permutations, renamings and randomly broken agenda ties.",
+          TB + "Modelled, not verified: completeness of the Earley item system; floating point; CPython dict/set semantics.", "DESIGN.md 7 C02")
+    check("C03", "Lean 4 proof (prefix transducer relates each string to each prefix exactly once) + correspondence of prefix_weight / prefix_grammar / derivative against sums of the proved WN oracle",
+          "prefix_transducer_unique for every alphabet and string pair; the weighted statements are decided by comparing the real prefix weights, prefix grammars and derivative grammars with Σ WN over all "
+          "strings of finite-language grammars (exact) and deep truncations for cyclic ones; mirror models of prefix_transducer and derivative compared structurally.",
+          TB + "The composition step is C09's; infinite languages are compared through convergent truncations with a tolerance.", "DESIGN.md 7 C03")
+    check("C04", "Lean 4 proof (chain rule / normalisation algebra over any field; strict agenda priority of the rescaled parser on generated expressions) + correspondence of the three language models against WN-based prefix sums",
+          "chain_rule_lm, normalize_sums_to_one, lmCall_chain_rule; the real p_next distributions, sequence probabilities and logp of EarleyLM, rescaled EarleyLM and CKYLM are compared with the factorisation computed from the proved WN oracle, "
+          "with each other, and on long contexts for the rescaled variant.",
+          TB + "Modelled, not verified: the Earley next-token recursion and the CKY outside pass (compared per input).", "DESIGN.md 7 C04")
+    check("C05", "Lean 4 proof (memo-table discipline is transparent for every operation sequence and every pure column function) + differential histories on real parser / LM objects vs fresh objects, with aliasing snapshots",
+          "history_independent over arbitrary chart/clear/seed sequences; the part a pure model cannot exhibit (Python aliasing, in-place mutation of cached columns, grammar mutation) is checked by running seeded query histories "
+          "on one object against a fresh object per query, with deep snapshots of cached columns and of the grammar before/after.",
+          TB + "CPython aliasing semantics are observed, not modelled.", "DESIGN.md 7 C05")
+    check("C06", "Lean 4 proofs about mirror models (trim/cotrim/separate_start/rename level identities, unfold cofinality) + stage-wise structural correspondence of every transformation + WN of the real outputs against WN of the input",
+          "Each transformation's real output grammar is sent to the proved WN oracle and compared with the input grammar's WN on sampled strings (every semiring offered); the mirror models are compared rule-for-rule with the real code, "
+          "stage by stage through the cnf pipeline. Theorems: trim_preserves, cotrim_preserves, separateStart_preserves, unfold_preserves, WN_rename, WN_perm.",
+          TB + "nullaryremove/unaryremove/unarycycleremove/binarize/separate_terminals semantic preservation is decided by the oracle comparison (proofs relative to the closure inputs are future work); null weights and unary closures are taken from the implementation as model inputs.", "DESIGN.md 7 C06")
+    check("C07", "Lean 4 proofs of the structural postconditions of the mirror models (incl. the whole cnf pipeline) + verified-predicate evaluation on the real outputs + structural correspondence",
+          "binarize_arity, separateStart_off_rhs, separateTerminals_shape, pushNull_no_nullary, unaryRemove_no_unary, trim_useful, trim_empty, cnf_shape for every input grammar; the decidable predicates are evaluated by the driver on the grammars the real code produced.",
+          TB + "unarycycleremove's postcondition is decided per output by the predicate noUnaryCycle (reachability by the verified fixpoint engine), not by a theorem about a model.", "DESIGN.md 7 C07")
+    check("C08", "Lean 4 proof (Kleene iterates ZN: table = specification, monotone chain, forgetful derivation sum, naive evaluator = ZN, Expectation lifting) + correspondence of agenda / naive_bottom_up / treesum / expected_length",
+          "ZNtab_spec, ZN_mono_le, ZN_forget, bottom_up_step_is_ZN, expectation_lifting; the real evaluators are compared with ZN (exact when stationary, deep truncation otherwise) under 3–8 hash seeds.",
+          TB + "The agenda algorithm itself (semi-naive updates, tolerance rule) is modelled only through its result; convergence is sampled.", "DESIGN.md 7 C08")
+    check("C09", "Correspondence of grammar∘transducer against the path-sum/derivation-sum specifications (Σ_x WN·TPN), structural model of the item construction",
+          "The real composed grammars are evaluated by the proved WN oracle and compared with Σ_x WN(G,x)·TPN(T,x,y) from the Lean specifications for transducers with ε on either tape, ε:ε arcs, cycles, dead states, both argument orders, acceptors and strings.",
+          TB + "No theorem about the Bar-Hillel construction yet: the check is a proved-oracle comparison (weighted Bar-Hillel proof is future work).", "DESIGN.md 7 C09")
+    check("C10", "Correspondence of transducer composition and evaluation against the transducer path-sum specification TPN; structural models of T, project, diag, from_string, from_pairs",
+          "f@g, f(x,y), cross-sections, transposition, projection and the constructors are compared with Σ_y TPN(f,x,y)·TPN(g,y,z) computed by the Lean specification on ε-acyclic machines (exact) and deep truncations otherwise.",
+          TB + "No theorem about the ε-filter composition yet (future work); decided per input against the specification.", "DESIGN.md 7 C10")
+    check("C11", "Lean 4 proof (forward algorithm = sum over accepting paths on ε-free machines; DP table = path-sum specification with ε arcs and cycles) + correspondence of __call__, epsremove, total_weight",
+          "forward_correct, PNtab_spec, Qk_epsfree_length; m(x), m.epsremove (no ε arcs, same weights as decided by the oracle on the real output) and total_weight are compared with the path-sum oracle over Float/Real/Boolean/MaxTimes.",
+          TB + "ε-cyclic machines: deep IEEE truncation with geometric tail.", "DESIGN.md 7 C11")
+    check("C12", "Lean 4 proof (union, concatenation, Kleene plus, reverse, injective renaming, lift, from_string, zero as exact-length path identities in every semiring) + language-level oracle on nested expressions + structural correspondence",
+          "union_Pk, concat_Pk, kleenePlus_Pk, reverse_Pk, mapStates_Pk, lift_spec, fromString_spec, zero_spec; real nested expressions are evaluated and compared with the language-level recursion on operand weights from the proved oracle.",
+          TB, "DESIGN.md 7 C12")
+    check("C13", "Correspondence of determinize / min_det / push / trim / trim_vals against the path-sum oracle and verified structural predicates (proofs of push/trim models pending)",
+          "String weights of the real results are compared with the proved path-sum oracle on all short strings; determinism, ε-freeness, stochasticity of pushed machines and usefulness of kept states are decided on the real outputs.",
+          TB, "DESIGN.md 7 C13")
+    check("C14", "Lean 4 proof of certificate checkers (equivalence certificates, separating words, Hankel-minor lower bounds) over exact arithmetic + comparison of the float implementation with the certified verdicts",
+          "equivCert_sound, counterexample_sound, rankLower_sound: every generated pair gets a machine-checked verdict (equivalent on ALL words / a separating word; minimal dimension); counterexample(), ==, hash, min.dim, min(x) are compared with it; termination by time-out.",
+          TB + "The certificate search (harness/qlinalg.py) is unverified but every certificate is re-checked; numpy/float behaviour is modelled, not verified.", "DESIGN.md 7 C14")
+    check("C15", "Lean 4 proof (block solvers satisfy x = xA + b / x = Ax + b; Lehmann closure equations; exact SCC checker) + correspondence of closures, solvers and blocks",
+          "solveLeft_eq, solveRight_eq, lehmann_closed, sccCheck_iff, closureScc_correct; the real closures and solutions are compared with the path-sum oracle, the real blocks are decided by the verified checker, the mirror models run on the real blocks.",
+          TB + "Tarjan's algorithm is checked per run by the verified checker, not proved.", "DESIGN.md 7 C15")
+    check("C16", "Lean 4 proof of all closed-semiring laws about definitions regenerated from semiring.py on every run (translator) + execution of the generated operations and of every law on the real classes",
+          "151 theorems (all eight weight types incl. Entropy's identity shortcuts and Log on EReal) about Generated/Semiring.lean; a source change that breaks a law breaks the proof, and the law is then evaluated on the real classes over value grids to exhibit the failing triple.",
+          TB + "The translator (harness/translate.py) is trusted and validated per run by executing the generated operations against the classes. 'Floats within rounding error' is sampled (Log: 1e-9).", "DESIGN.md 7 C16")
+    check("C17", "Correspondence of to_cfg (both recursions), WFSA.to_bytes and CFG.to_bytes against WN / path-sum oracles with UTF-8 decoding; checked freshness hypotheses",
+          "Real converted grammars and byte automata are evaluated by the proved oracles on all byte strings up to a bound and compared with the symbol-level weights through Lean's UTF-8 encoder; merged conversions included.",
+          TB, "DESIGN.md 7 C17")
+    check("C18", "Correspondence of interegular_to_wfsa against Mathlib's verified regular-expression matcher (rmatch_iff_matches') on generated regex ASTs; local normalisation decided on the real automaton",
+          "Regex ASTs are printed both in the library's syntax and as RegularExpression terms; acceptance of all strings up to a bound is compared; per-state outgoing mass is summed exactly.",
+          TB + "interegular (third party) is validated per run through the end-to-end oracle.", "DESIGN.md 7 C18")
+    check("C19", "Correspondence of LarkStuff.char_cfg / byte_cfg against substitution semantics computed from the verified viable-prefix/derivation oracle and the verified regex matcher",
+          "Generated Lark grammars; acceptance of candidate strings/byte strings compared; name disjointness checked on the real output.",
+          TB + "lark (third party) is trusted for loading the grammar and cross-checked only end-to-end.", "DESIGN.md 7 C19")
+    check("C20", "Lean 4 proof (local normalisation: head sums one, proportionality; EOS wrapping) + correspondence on real outputs through the WN/ZN oracles + structural models",
+          "ln_heads_sum_one, ln_proportional, addEOS_spec; per-head sums, WN(ln(G))·Z = WN(G), total weight one, and the EOS identities are decided on the real outputs.",
+          TB + "Z is taken from the implementation's agenda() (its correctness is C08).", "DESIGN.md 7 C20")
